@@ -476,8 +476,13 @@ def c03(ctx):
     cfgf = vault_cfg(["A"], ["x", "E"], 3, faults=("none", "save"))
     wdf, runf, nsf, nef = vault_graph(ctx, "c03faults", cfgf, workers=4)
     t2, s2 = vault_walk(ctx, wdf, "c03faults", shards=8 if th else 4, env={"VERIF_REOPEN_EACH": 1, "VERIF_PROBE_EVERY": 1})
-    t1 = merge_tot(t1, t2)
-    ns, ne = ns + nsf, ne + nef
+    # ... and with two names, the file watched instead of the live instance (after every call a copy of the file is opened and
+    # must hold exactly the acknowledged state): a failed save of one secret must not ride along with the next successful save of another
+    cfgf2 = vault_cfg(["A", "B"], ["x", "E"], 3 if th else 2, faults=("none", "save"))
+    wdf2, runf2, nsf2, nef2 = vault_graph(ctx, "c03faults2", cfgf2, workers=8)
+    t3, s3 = vault_walk(ctx, wdf2, "c03faults2", shards=16 if th else 6, env={"VERIF_OBSERVE_COPY": 1, "VERIF_PROBE_EVERY": 16, "VERIF_AFTER_FAULT": 1})
+    t1 = merge_tot(t1, t2, t3)
+    ns, ne = ns + nsf + nsf2, ne + nef + nef2
     gold = golden_check(ctx)
     cov = {"states": ns, "transitions": t1.get("targets_covered", 0), "traces_validated_against_impl": gold["validated"],
            "samples": s1[:2] + gold["samples"], "restarts_after_operation": t1.get("reopens_after_op", 0),
@@ -789,9 +794,13 @@ def c04(ctx):
     scen = ["create", "firstput", "newversion", "activate", "delver", "delete"] if th else ["create", "newversion", "delete"]
     r, ok, nruns = atomicfile_conformance(ctx, scen)
     # in-process I/O failures with rollback of the served state: the "save" fault edges of the Vault graph
-    cfg = vault_cfg(["A", "B"] if th else ["A"], ["x", "E"], 3 if th else 2, mode="su", faults=("none", "save"), reopen=True)
+    cfg = vault_cfg(["A", "B"], ["x", "E"], 3 if th else 2, mode="su", faults=("none", "save"), reopen=True)
     wd, run, ns, ne = vault_graph(ctx, "c04save", cfg, workers=8)
-    t1, s1 = vault_walk(ctx, wd, "c04save", shards=8 if th else 4, env={"VERIF_PROBE_EVERY": 4})
+    t1, s1 = vault_walk(ctx, wd, "c04save", shards=16 if th else 6, env={"VERIF_PROBE_EVERY": 4})
+    # the same graph with the FILE watched after every call (a copy of it is opened) and a successful save of another secret right
+    # after every failed one: what a failed call leaves behind in memory must never reach the disk later
+    t1b, _ = vault_walk(ctx, wd, "c04save-file", shards=16 if th else 6, env={"VERIF_PROBE_EVERY": 16, "VERIF_OBSERVE_COPY": 1, "VERIF_AFTER_FAULT": 1})
+    t1 = merge_tot(t1, t1b)
     cov = {"evaluations": r["counters"]["cases"] + t1.get("targets_covered", 0), "distinct_nontrivial": r["counters"]["cases"],
            "rule": "one case = (kind of mutating operation, system call of the save, fault: injected errno or SIGKILL at its entry), enumerated by "
                    "scanning strace's when=N over create-temp/openat, every write, fchmod, fsync, close, renameat and the instant after the rename; "
